@@ -33,6 +33,14 @@ inline int atomicDec(int volatile* x) { return __sync_sub_and_fetch(x, 1); }
 #include "Mutex.h"
 #endif
 
+#if defined(ASL_VERIF) && !defined(ASL_NO_ATOMIC_OPS)
+// schedule points in front of the (unchanged) atomic steps
+inline int asl_verif_atomicInc(int volatile* x) { ASL_VERIF_POINT(ASL_VP_ATOMIC_INC, x); return atomicInc(x); }
+inline int asl_verif_atomicDec(int volatile* x) { ASL_VERIF_POINT(ASL_VP_ATOMIC_DEC, x); return atomicDec(x); }
+#define atomicInc asl_verif_atomicInc
+#define atomicDec asl_verif_atomicDec
+#endif
+
 namespace asl {
 
 class AtomicCount
